@@ -18,8 +18,10 @@ from . import c13_gen as G
 
 PROPERTY = 'C13'
 GEN_MODULES = ['lexgen', 'literals']
-LEAN_TARGETS = ['ChibiVerif.Props.C13', 'ChibiVerif.Props.C13Components', 'ChibiVerif.Findings.C13']
-PROPS_FILES = ['ChibiVerif/Props/C13.lean', 'ChibiVerif/Props/C13Components.lean']
+LEAN_TARGETS = ['ChibiVerif.Props.C13', 'ChibiVerif.Props.C13Components', 'ChibiVerif.Props.C13Sites', 'ChibiVerif.Props.C13Codegen',
+                'ChibiVerif.Findings.C13', 'ChibiVerif.Findings.C13Sites']
+PROPS_FILES = ['ChibiVerif/Props/C13.lean', 'ChibiVerif/Props/C13Components.lean', 'ChibiVerif/Props/C13Sites.lean',
+               'ChibiVerif/Props/C13Codegen.lean']
 NEEDS_HOOKS = False
 TRUSTED_BASE = [
     'Lean 4.33.0 kernel; axioms admitted: propext, Classical.choice, Quot.sound (audited per theorem on every run)',
@@ -27,8 +29,12 @@ TRUSTED_BASE = [
     'convert_universal_chars, the scanning loop of tokenize() with decode_utf8, error_at line counting, add_line_numbers) over '
     'arbitrary byte lists with positions as indices; tied on every run by outcome equality (ok / message id + line) with '
     '`chibicc -cc1 -E` on directive-free byte noise through drv_c13',
-    'the component models of the sibling properties imported read-only by Props/C13.lean (Model/Lex, HashMap, Layout, '
-    'Literals, CondIncl, ...): their own ties are run by their owners\' checks, not here',
+    'the component models of the sibling properties imported read-only by Props/C13Components.lean and Props/C13Sites.lean '
+    '(Model/Lex, HashMap, Layout, Init, Literals, PP, CondIncl, PPExpr, IncludeSearch): their own ties are run by their owners\' '
+    'checks, not here; the instrumented doubles of Model/C13Sites.lean are proved equal to the originals (lexLiteralI = lexLiteral '
+    'for every byte list) and lexLiteralI is additionally run against `chibicc -cc1 -E` on generated literal texts (drv_c13 literal)',
+    'gcov (gcc 12) on a --coverage build of the snapshot, used only to COUNT which error_tok/error_at/error call sites the seeds '
+    'and a sample of the campaign reached (evidence; no verdict depends on it)',
     'python: generators, the classification of wait status and stderr, the signature extraction from ASan/UBSan/gdb text, '
     'delta debugging; gcc 12 -std=c11 -fsyntax-only as the conforming compiler of the "accepted" half; GNU as',
     'ASan/UBSan (gcc 12, -O1) as memory-error detector: this is testing, not proof; strict_memcmp is switched off after the '
@@ -45,6 +51,9 @@ ASSUMPTIONS = [
     '"supported language" of the accepted half = what tools/gen/cprog.py and checklib/C13_gen.py generate (features exercised by '
     'test/*.c; no _Static_assert, _Complex, K&R definitions) and gcc -std=c11 -fsyntax-only accepts',
     'hang = no exit within 10 s of CPU-wall time or more than 3.5 GB resident',
+    'latitude: invalid input that cc1 ACCEPTS is not a C13 violation (the property demands termination with output or a located '
+    'diagnostic): e.g. duplicate labels, duplicate or overlapping case values, `void x;` at file scope, bit-field widths beyond the '
+    'type, negative array sizes; the "accepted half" only judges programs gcc -std=c11 accepts, so these never reach it',
 ]
 
 TIMEOUT = 10
@@ -197,11 +206,35 @@ def include_cycle(case):
     return dfs(main)
 
 
+HUGE_INDEX = re.compile(rb'\[\s*(0[xX][0-9a-fA-F]+|[0-9]+)[uUlL]*\s*(?:\.\.\.\s*(0[xX][0-9a-fA-F]+|[0-9]+)[uUlL]*\s*)?\]')
+
+
+def huge_array_init(case):
+    """region of the known finding C13-huge-designator-index: the input contains `[N]` or `[M ... N]` (an array bound or an array
+    designator) with N >= 2^24 AND an initializer (`=` followed by `{` or a string): new_initializer allocates one node per
+    element, so cc1 needs gigabytes and minutes (timeout / oom), or calloc fails under the address-space limit of the
+    harness and cc1 dies in new_initializer"""
+    data = case['data']
+    if len(data) > 200000 or not re.search(rb'=\s*(\{|[LuU8]*")', data):
+        return False
+    for m in HUGE_INDEX.finditer(data):
+        for g in (m.group(1), m.group(2)):
+            if g:
+                try:
+                    if int(g, 0 if g[:2].lower() == b'0x' else 10) >= (1 << 24):
+                        return True
+                except ValueError:
+                    pass
+    return False
+
+
 def hang_site(case):
     """site of a timeout / memory exhaustion, decided on the input: a declarator nested in >= 16 parentheses (an identifier
     directly after 16 or more '(' each optionally followed by '*'), a cyclic #include graph, else the generator family"""
     if include_cycle(case):
         return 'include-cycle'
+    if huge_array_init(case):
+        return 'huge-array-initializer'
     if DECL_NEST.search(case['data']):
         return 'declarator-paren-nesting'
     return 'other:' + case.get('family', case['gen'])
@@ -358,7 +391,7 @@ class Runner:
             if m2:
                 fname, m = m2.group(1), re.match(r'(-?\d+)', m2.group(2))
         if not m:
-            if re.match(r'(unknown argument|-include:|<command line>|no input files|cannot open output file)', first) \
+            if re.match(r'(unknown argument|-include:|<command line>|no input files|cannot open output file|chibicc \[ -o <path> \] <file>)', first) \
                or first.startswith(src + ': ') \
                or any(first.startswith(o.replace('@DIR@', d) + ': ') for o in case.get('opts', []) if not o.startswith('-')):
                 r['cls'] = 'diag'
@@ -375,8 +408,10 @@ class Runner:
             r['detail'] = 'command-line'
             return r
         try:
-            cwd = (case.get('cwd') or '').replace('@SNAP@', self.ctx.snapshot)
-            data = open(os.path.join(cwd, fname) if cwd else fname, 'rb').read()
+            # a diagnostic names the file as cc1 was given it or as an #include spelled it: relative names are relative to the
+            # working directory of the run (the case's cwd, else its scratch directory d)
+            cwd = (case.get('cwd') or '').replace('@SNAP@', self.ctx.snapshot) or d
+            data = open(fname if os.path.isabs(fname) else os.path.join(cwd, fname), 'rb').read()
         except OSError:
             r['cls'] = 'bad-location'
             r['site'] = 'file'
@@ -485,6 +520,10 @@ class Runner:
                 final['cls'] = 'valid-rejected'
                 final['site'] = norm_msg(final.get('msg') or '?')
                 final['detail'] = (p or a)['stderr'][:300]
+            if final['cls'] == 'signal' and final.get('site') in ('new_initializer', 'array_of', '?', 'calloc') and huge_array_init(case):
+                final = dict(final)
+                final['detail'] = f"in {final['site']}: " + final.get('detail', '')
+                final['site'] = 'huge-array-initializer'      # calloc(…) returned NULL under the harness' address-space limit
             final['sig'] = final['cls'] + ('@' + final['site'] if final['cls'] in BAD else '')
             res['final'] = final
             return res
@@ -667,6 +706,11 @@ def campaign(ctx, corr, cases, runner, km, budget_shrink=120, label=''):
             return 0
         with concurrent.futures.ThreadPoolExecutor(max_workers=4) as ex:
             n = sum(ex.map(again, slow))
+        # what is still slow is run once more with nothing else running: a loaded machine must not turn into a verdict
+        still = [i for i in slow if results[i]['final']['cls'] in ('timeout', 'oom')]
+        for i in still:
+            if not match_known(results[i]['final']['sig'], km):
+                n += again(i)
         if n:
             corr.count('timeout_not_reproduced_rerun', n)
     clusters = {}
@@ -816,6 +860,137 @@ def lex_tie(ctx, corr, runner, cases):
             corr.nontrivial.add('lex:' + hashlib.sha1(c['data']).hexdigest())
 
 
+def literal_tie(ctx, corr, runner, texts):
+    """drv_c13 literal (lexLiteralI on the text + newline) vs `chibicc -cc1 -E` on the same bytes: a diagnostic of the model must be
+    the diagnostic of cc1 (same message); a literal that the model reads up to the newline must be accepted"""
+    texts = [t for t in texts if t and b'\0' not in t and b'\n' not in t and b'\r' not in t and b'#' not in t and b'??' not in t]
+    inp = ''.join(' '.join(str(b) for b in t + b'\n') + '\n' for t in texts)      # the model reads the text cc1 reads: literal + newline
+    try:
+        out = ctx.driver('literal', inp, timeout=600).splitlines()
+    except ModelBuildFailure:
+        raise
+    except Exception as ex:
+        corr.disagreements.append({'kind': 'driver', 'input': '', 'model': str(ex)[:300], 'impl': '', 'note': 'drv_c13 literal failed'})
+        return
+    if len(out) != len(texts):
+        corr.disagreements.append({'kind': 'driver', 'input': '', 'model': f'{len(out)} lines', 'impl': f'{len(texts)} texts', 'note': 'drv_c13 literal'})
+        return
+
+    def impl(t):
+        r = runner.run_case({'gen': 'literal-tie', 'family': 'literal-tie', 'data': t + b'\n', 'opts': ['-E'], 'textual': False}, which='plain')
+        f = r['final']
+        if f['cls'] == 'ok':
+            return 'ok'
+        if f['cls'] in ('diag', 'bad-location'):
+            return f"diag {G.msg_id(f.get('msg') or r['plain']['stderr'])}"
+        return f['cls']
+    with concurrent.futures.ThreadPoolExecutor(max_workers=NPROC) as ex:
+        impls = list(ex.map(impl, texts))
+    for t, mo, io in zip(texts, out, impls):
+        corr.evaluations += 1
+        corr.count('literal_tie')
+        w = mo.split()
+        corr.count('literal_tie:' + ' '.join(w[:2]))
+        if w[0] == 'overread':
+            # the theorem says this never happens; if the executable model disagrees with the theorem the tie is broken
+            corr.disagreements.append({'kind': 'literal-overread', 'input': show(t), 'input_b64': b64(t), 'model': mo, 'impl': io,
+                                       'note': 'lexLiteralI produced the over-read outcome'})
+            continue
+        if w[0] == 'diag':
+            if w[1] == 'not_a_literal':
+                continue
+            want = f'diag {w[1]}'          # (the line is the scanner model's business: Props/C13.lean, lex_tie)
+        elif int(w[2]) == len(t):
+            want = 'ok'
+        else:
+            corr.count('literal_tie_prefix_only')
+            continue                      # the literal ends before the text does: what follows decides the outcome of cc1
+        if io != want:
+            corr.disagreements.append({'kind': 'literal-outcome', 'input': show(t), 'input_b64': b64(t), 'model': mo + ' => ' + want,
+                                       'impl': io, 'note': 'Model/C13Sites.lexLiteralI vs chibicc -cc1 -E'})
+        else:
+            corr.nontrivial.add('lit:' + hashlib.sha1(t).hexdigest())
+
+
+SITE_CALL = re.compile(r'\b(error_tok|error_at|error)\s*\(')
+ABORT_CALL = re.compile(r'\bunreachable\s*\(\s*\)')
+COV_FILES = ['tokenize.c', 'preprocess.c', 'parse.c', 'type.c', 'codegen.c', 'main.c', 'unicode.c', 'hashmap.c', 'strings.c']
+
+
+def build_cov(ctx):
+    dst = os.path.join(ctx.scratch, 'repo_cov')
+    exe = os.path.join(dst, 'chibicc')
+    if os.path.exists(exe):
+        return exe
+    rc, o, e = sh(['rsync', '-a', '--exclude=*.o', '--exclude=/chibicc', '--exclude=*.exe', ctx.snapshot + '/', dst + '/'])
+    if rc != 0:
+        raise RuntimeError('rsync failed: ' + e)
+    rc, o, e = sh(['make', f'-j{NPROC}', 'chibicc', 'CC=gcc', 'CFLAGS=-std=c11 -g -fno-common -O0 --coverage', 'LDFLAGS=--coverage'],
+                  cwd=dst, timeout=900)
+    if rc != 0:
+        raise RuntimeError('coverage build failed: ' + (e or o)[-500:])
+    return exe
+
+
+def gcov_counts(cov_dir):
+    """{(file, line): (count, text)} for the call sites of error_tok/error_at/error and unreachable()"""
+    res = {}
+    for f in COV_FILES:
+        if not os.path.exists(os.path.join(cov_dir, f)):
+            continue
+        rc, o, e = sh(['gcov', '-t', f], cwd=cov_dir, timeout=120)
+        for line in o.splitlines():
+            m = re.match(r'\s*([^:]+):\s*(\d+):(.*)', line)
+            if not m:
+                continue
+            cnt, ln, txt = m.group(1).strip(), int(m.group(2)), m.group(3)
+            if cnt == '-' or re.match(r'\s*(void|static|noreturn|_Noreturn|//|#)', txt):
+                continue
+            kind = 'diag' if SITE_CALL.search(txt) else 'abort' if ABORT_CALL.search(txt) else None
+            if not kind:
+                continue
+            c = 0 if cnt[0] in '#=' else int(re.sub(r'\D', '', cnt) or 0)
+            res[(f, ln)] = (c, kind, txt.strip()[:100])
+    return res
+
+
+def site_coverage(ctx, corr, runner, seed_cases, other_cases):
+    """run the seeds, then a sample of the other inputs, through a gcov build; count the diagnostic call sites reached"""
+    exe = build_cov(ctx)
+    cov_dir = os.path.dirname(exe)
+
+    def run(case):
+        d, src = runner.case_dir(case)
+        try:
+            c, out = runner.cmd(exe, src, d, case)
+            cwd = (case.get('cwd') or '').replace('@SNAP@', ctx.snapshot) or d
+            run_proc(c, TIMEOUT, env=runner.base_env, vlimit_kb=4_000_000, cwd=cwd)
+        finally:
+            shutil.rmtree(d, ignore_errors=True)
+
+    def run_all(cases):
+        with concurrent.futures.ThreadPoolExecutor(max_workers=max(2, NPROC // 2)) as ex:
+            list(ex.map(run, cases))
+    run_all(seed_cases)
+    after_seeds = gcov_counts(cov_dir)
+    sample = [c for c in other_cases if len(c['data']) < 20000 and c.get('family') not in ('deep',)]
+    ctx.rng.shuffle(sample)
+    run_all(sample[:700 if not ctx.thorough else 4000])
+    after_all = gcov_counts(cov_dir)
+    diag_sites = sorted(k for k, v in after_all.items() if v[1] == 'diag')
+    cc1_sites = [k for k in diag_sites if k[0] != 'main.c']
+    corr.extra['diagnostic_sites'] = {
+        'total': len(diag_sites), 'total_outside_main_c': len(cc1_sites),
+        'reached_by_seeds': sum(1 for k in diag_sites if after_seeds.get(k, (0,))[0] > 0),
+        'reached_by_seeds_and_campaign_sample': sum(1 for k in diag_sites if after_all[k][0] > 0),
+        'unreached': [f'{k[0]}:{k[1]} {after_all[k][2]}' for k in diag_sites if after_all[k][0] == 0],
+        'unreachable_calls_executed': [f'{k[0]}:{k[1]}' for k, v in sorted(after_all.items()) if v[1] == 'abort' and v[0] > 0],
+        'note': 'call sites of error_tok/error_at/error counted with gcov on a --coverage build of the snapshot; main.c sites belong to the '
+                'driver (C14) and are reached only through options; an executed unreachable() would also show up as internal-error',
+    }
+    corr.count('coverage_runs', len(seed_cases) + min(len(sample), 700 if not ctx.thorough else 4000))
+
+
 def correspond(ctx, corr):
     rng = ctx.rng
     runner = Runner(ctx)
@@ -861,7 +1036,7 @@ def correspond(ctx, corr):
     cases += G.gen_pp_stress(rng, 150 * scale)
     cases += G.gen_options(rng, bases, 60 * scale)
     # (f) accepted half: only programs gcc accepts are kept
-    valid = G.gen_valid(rng, 380 * scale)
+    valid = G.gen_valid(rng, 380 * scale) + G.gen_boundary(rng, 45 * scale) + G.gen_macro_histories(rng, 6 * scale)
     gdir = os.path.join(ctx.scratch, 'gcccheck')
     os.makedirs(gdir, exist_ok=True)
 
@@ -882,10 +1057,7 @@ def correspond(ctx, corr):
     for k, v in cl.items():
         all_clusters.setdefault(k, []).extend(v)
 
-    # 4. model tie for the scanner
-    lex_tie(ctx, corr, runner, G.lex_tie_cases(rng, noise, 300 * scale))
-
-    # 5. cluster, shrink, report
+    # 4. cluster, shrink, report (before the model ties: a model that no longer builds must not hide what the binary did)
     entries = report_clusters(ctx, corr, runner, all_clusters, km, 400 if ctx.thorough else 120)
     msgs = corr.extra.pop('_msgs', set())
     corr.extra['distinct_diagnostic_messages_seen'] = len(msgs)
@@ -896,6 +1068,19 @@ def correspond(ctx, corr):
         corr.sample(f"{e['signature']} x{e['count']}: {e['input'][:120]!r}")
     for c in cases[:3]:
         corr.sample(f"{c['gen']}: {show(c['data'], 100)!r}")
+
+    # 5. model tie for the scanner
+    lex_tie(ctx, corr, runner, G.lex_tie_cases(rng, noise, 300 * scale))
+
+    # 5b. the instrumented literal readers (Model/C13Sites.lexLiteralI, proved equal to C11's lexLiteral) against the tokenizer
+    literal_tie(ctx, corr, runner, G.gen_literal_texts(rng, 250 * scale))
+
+    # 5c. which diagnostic call sites of the C code did the seeds / the campaign reach (gcov; evidence only)
+    try:
+        site_coverage(ctx, corr, runner, reg + seeds, must + cases)
+    except Exception as ex:
+        ctx.notes.append(f'site coverage not measured: {type(ex).__name__}: {str(ex)[:200]}')
+
 
 
 def component_theorems(ctx):
@@ -942,12 +1127,21 @@ def replay(ctx, corr, path):
 
 MANIFEST = {
     'level_text': 'proof (partial)',
-    'level_note': 'Lean: the byte-level scanner model (read_file .. tokenize, Model/LexTotal) is total on every byte list and answers ok or '
-                  'a diagnostic whose line lies in the file, never an over-read outcome unless the text contains a NUL or a temporary '
-                  'buffer ends inside a comment/escape (explicit predicate); no-crash/no-fuel theorems for the sibling component '
-                  'models that build.  The parser, type checker and code generator are not modelled: for them the property is '
-                  'sampled by an outcome-class campaign on the plain and the ASan/UBSan binary (about 3k inputs quick, 30k thorough).',
+    'level_note': 'Lean: the byte-level scanner model (read_file .. tokenize, Model/LexTotal) is total on every byte list and '
+                  'answers ok or a diagnostic whose line lies in the file; per-component no-abort / located-diagnostic theorems on the '
+                  'sibling models with every crash site of the C code an explicit outcome: hashmap, constant folder, lexer, macro '
+                  'expansion (object-like), driver, #include machine (corollaries of C17/C07/C19/C09/C14/C10); struct_decl/union_decl '
+                  'division sites characterised exactly and never reached on any type description (with C08); get_struct_member; the '
+                  'twelve mutually recursive functions of the initializer parser never index outside an initializer tree for every '
+                  'type, token list and recursion budget; the literal readers never read behind the terminating NUL on any byte '
+                  'list (instrumented double proved equal to C11\'s model); read_macro_args, the #if machine and its arithmetic; '
+                  'gen_expr/gen_addr/gen_stmt fail only with located diagnostics on trees carrying their types (calls and atomics '
+                  'outside).  Open: termination of the initializer parser within its budget; code generation of calls/atomics; the '
+                  'parser and type checker as a whole are not modelled: for them the property is sampled by an outcome-class campaign '
+                  'on the plain and the ASan/UBSan binary (about 3k inputs quick, 30k thorough), with one seed per reachable '
+                  'error_tok/error_at call site (gcov-counted in the evidence).',
     'technique': 'Lean 4 totality/no-crash theorems on component models + outcome-class correspondence (wait status, stderr, `as`) '
-                 'of the real cc1 under token/byte mutation, one seed per diagnostic site, generated valid programs checked by gcc',
+                 'of the real cc1 under token/byte mutation, one seed per diagnostic site, generated valid programs checked by gcc '
+                 '(incl. boundary immediates and long macro-table histories); model ties for the scanner and the literal readers',
     'design_ref': 'DESIGN.md section 6, C13',
 }
